@@ -61,6 +61,7 @@ class Context:
         self.rules_doc = {}
         self.unit = ''  # label of the unit (flavour:file) currently evaluated
         self._share = None
+        self.deferred = []
 
     def close(self):
         self.wd.cleanup()
@@ -229,6 +230,16 @@ class Context:
         self.fn_analysed.add(name)
         return f
 
+    def attempt(self, fn, *a, **k):
+        """evaluate one rule; a vanished anchor inside it is deferred so that the other rules of the property are still evaluated
+        (the edit that removed the anchor is usually reported by one of them).  run_property turns a deferred failure into exit 2
+        unless a violation was established."""
+        try:
+            return fn(*a, **k)
+        except AnalysisBroken as e:
+            self.deferred.append(str(e))
+            return None
+
     def shared(self, mapping, keep=None, doc=None, floor=None):
         """context manager: run rule functions of another property's module and record, under this property's rule ids, the
         obligations that are also necessary conditions of this property.  mapping: their rule id -> ours; keep(instance) selects
@@ -321,6 +332,8 @@ def run_property(prop, tier, seed, rules_mod, repo=None, quiet=False, selftest=T
         ctx.incomplete = None
         try:
             rules_mod.run(ctx)
+            if ctx.deferred:
+                raise AnalysisBroken('; '.join(ctx.deferred[:3]))
         except AnalysisBroken as e:
             # an edit that breaks the property often also removes an anchor a later rule binds to (a callback folded into its
             # caller, ...).  A violation already established stays the verdict; without one a vanished anchor is exit 2.
